@@ -934,8 +934,9 @@ func c12R5(c *Ctx) {
 						return e != nil && e.K == EBin && e.Op == token.ADD && FieldIs(levelF)(e.X) && IsConstInt(1)(e.Y)
 					}),
 					OnCmp("rs.depth>0", FieldIs(depthF), token.LEQ, IsConstInt(0), false),
+					// one-shot: the state handed on has nomin set (a store, or the literal of a fresh state);
+					// "the current state's nomin is false" alone is NOT a rank — it stays false on re-entry
 					StoreBarrier("rs.nomin=true (one-shot)", nominF, IsConstBool(true)),
-					OnFalse("!rs.nomin", FieldIs(nominF)),
 					OnCmp("ErrorCount==5 (one-shot)", CallTo(addU32), token.EQL, IsConstInt(5), true),
 				}
 				ug, tr := c.unguarded(in, ranks, TopLevel(in.Parent()))
